@@ -1,4 +1,5 @@
 import Supv.Lemmas.Strat
+import Supv.Lemmas.InstOrd
 
 /-!
 # C09 — Stop sequences are honoured; restart/shutdown is orderly and reaches everyone
@@ -59,5 +60,67 @@ theorem C09_stop_completion (state : PState) (req wait cnt : Nat) :
         (state = .stopping ∧ req + wait < cnt) ∨ (state ≠ .stopping ∧ state.isStopped = false ∧ cnt > req + minTicks)) := by
   unfold stopCheckResult
   cases state <;> simp [PState.isStopped] <;> (try split) <;> simp_all <;> omega
+
+
+/-! ## restart / shutdown: one order to each Supervisor, on the way to FINAL (instance FSM model, any history) -/
+
+section Orders
+open Supv.Inst
+
+/-- the state after a history of operations, and the number of orders (`restartLocal` / `shutdownLocal`) the local Supervisor was
+    sent along it -/
+def runOrders (c : Cfg) : St → List (Nat × Supv.Inst.Op × List (Query × Nat)) → St × Nat
+  | s, [] => (s, 0)
+  | s, x :: t =>
+    let s1 := (stepOp c s x.1 x.2.1 x.2.2).1
+    let r := runOrders c s1 t
+    (r.1, orders s1.out + r.2)
+
+/-- **C09, "each live instance's Supervisor receives exactly one restart / shutdown order ... afterwards every instance is in
+    FINAL"** (the at-most-one and the FINAL part, for EVERY history of operations of an instance - ticks, publications of the
+    Master, handshakes, failures, restart / shutdown / end_sync requests, any oracle for the Stopper and the Starter - from any
+    well-formed state): at most one order is ever sent to the local Supervisor; once it has been sent the instance is in FINAL and
+    stays there; an instance that is already in FINAL sends none. -/
+theorem C09_one_order_then_final (c : Cfg) (ops : List (Nat × Supv.Inst.Op × List (Query × Nat))) :
+    ∀ s : St, c.me < s.modes.length →
+      (runOrders c s ops).2 ≤ 1
+      ∧ ((runOrders c s ops).2 = 1 → fsmOf c (runOrders c s ops).1 = .final)
+      ∧ (fsmOf c s = .final → (runOrders c s ops).2 = 0)
+      ∧ Path (fsmOf c s) (fsmOf c (runOrders c s ops).1) ∧ (runOrders c s ops).1.modes.length = s.modes.length := by
+  induction ops with
+  | nil => intro s _; exact ⟨by simp [runOrders], fun h => by simp [runOrders] at h, fun _ => rfl, Path.refl _, rfl⟩
+  | cons x t ih =>
+    intro s hwf
+    obtain ⟨hm, hl⟩ := stepOp_moves c s x.1 x.2.1 x.2.2 hwf
+    obtain ⟨o1, o2⟩ := stepOp_ord c s x.1 x.2.1 x.2.2 hwf
+    obtain ⟨i1, i2, i3, i4, i5⟩ := ih (stepOp c s x.1 x.2.1 x.2.2).1 (by rw [hl]; exact hwf)
+    simp only [runOrders]
+    refine ⟨?_, ?_, ?_, Path.trans hm i4, i5.trans hl⟩
+    · by_cases h1 : orders (stepOp c s x.1 x.2.1 x.2.2).1.out = 1
+      · have := i3 (o2 h1).1; omega
+      · omega
+    · intro htot
+      by_cases h1 : orders (stepOp c s x.1 x.2.1 x.2.2).1.out = 1
+      · have hf := (o2 h1).1
+        rw [hf] at i4
+        exact path_from_final i4
+      · exact i2 (by omega)
+    · intro hs
+      have h0 : orders (stepOp c s x.1 x.2.1 x.2.2).1.out = 0 := by
+        by_cases h1 : orders (stepOp c s x.1 x.2.1 x.2.2).1.out = 1
+        · exact absurd hs (o2 h1).2
+        · omega
+      rw [hs] at hm
+      have := i3 (path_from_final hm)
+      omega
+
+/-- **the order is sent in the very step that reaches FINAL**, and only after the Stopper has finished on the Master: the Master
+    leaves RESTARTING / SHUTTING_DOWN only when the oracle says the Stopper is idle (`nextEnding`), a Slave when its Master has
+    left the ending state (`nextEnding`, second branch) -/
+theorem C09_order_with_final (c : Cfg) (s : St) (now : Nat) (op : Supv.Inst.Op) (orc : List (Query × Nat)) (hwf : c.me < s.modes.length)
+    (h : orders (stepOp c s now op orc).1.out = 1) :
+    fsmOf c (stepOp c s now op orc).1 = .final ∧ fsmOf c s ≠ .final := (stepOp_ord c s now op orc hwf).2 h
+
+end Orders
 
 end Supv.Props.C09
